@@ -7,7 +7,7 @@ import os
 
 #        quick N, thorough N
 RUNS = {
-    "C01": (30000, 600000),
+    "C01": (20000, 400000),
     "C02": (8000, 200000),
     "C03": (12000, 300000),
     "C04": (12000, 300000),
